@@ -54,7 +54,7 @@ func CheckShortcutKeys(s *jschema.JSchema, userTypes *UserSchemas) error {
 }
 
 // unionLeadsBackToItself tells if the schema of the user type is a union of
-// types (or a reference to one) from which the same type is reached again
+// types (or a reference to one) from which a type is reached a second time
 // through unions and references only.
 func unionLeadsBackToItself(name string, userTypes *UserSchemas) bool {
 	alternatives := func(n string) []string {
@@ -72,21 +72,27 @@ func unionLeadsBackToItself(name string, userTypes *UserSchemas) bool {
 		return m.GetTypes()
 	}
 
-	visited := map[string]struct{}{}
+	// The library follows the alternatives without remembering where it has
+	// been: any circle of unions it gets into is endless, whether or not the
+	// circle comes back to the type of the key.
+	onPath := map[string]struct{}{}
+	done := map[string]struct{}{}
 	var reaches func(n string) bool
 	reaches = func(n string) bool {
+		onPath[n] = struct{}{}
 		for _, a := range alternatives(n) {
-			if a == name {
+			if _, ok := onPath[a]; ok {
 				return true
 			}
-			if _, ok := visited[a]; ok {
+			if _, ok := done[a]; ok {
 				continue
 			}
-			visited[a] = struct{}{}
 			if reaches(a) {
 				return true
 			}
 		}
+		delete(onPath, n)
+		done[n] = struct{}{}
 		return false
 	}
 	return reaches(name)
